@@ -13,8 +13,103 @@ pub const GEN_PAD: usize = 3;
 pub const GEN_MODEIND: usize = 4;
 pub const GEN_RAMP: usize = 5;
 pub const GEN_SPARSE: usize = 6;
-pub const GEN_COUNT: usize = 7;
-pub const GEN_NAMES: [&str; 7] = ["random", "low", "high", "pad-lookalike", "mode-indicator-lookalike", "ramp", "sparse"];
+pub const GEN_TOKENS: usize = 7;
+pub const GEN_ZERORUN: usize = 8;
+pub const GEN_PERIODIC: usize = 9;
+pub const GEN_ALT: usize = 10;
+/// 11 generators: coprime with every other modulus the workloads rotate on (2, 3, 4, 5, 8, 9, 16)
+pub const GEN_COUNT: usize = 11;
+pub const GEN_NAMES: [&str; 11] = ["random", "low", "high", "pad-lookalike", "mode-indicator-lookalike", "ramp", "sparse", "real-world-tokens", "zero-runs", "periodic", "alternating-extremes"];
+
+/// What people actually put into QR codes, plus byte sequences with a meaning of their own in some
+/// layer (byte order marks, GS1 / ECI / AIM escapes, control characters, Shift-JIS and UTF-8
+/// multi-byte sequences). The first group is used as a PREFIX half of the time: content-dependent
+/// behaviour usually keys on how a payload starts.
+const BYTE_PREFIXES: &[&[u8]] = &[
+    b"https://", b"http://", b"HTTPS://", b"HTTP://", b"Https://", b"www.", b"WWW.", b"ftp://", b"mailto:", b"MAILTO:", b"tel:+", b"TEL:", b"sms:", b"SMSTO:",
+    b"geo:", b"WIFI:T:WPA;S:", b"WIFI:S:", b"BEGIN:VCARD\nVERSION:3.0\n", b"BEGIN:VEVENT\n", b"MECARD:N:", b"MATMSG:TO:", b"bitcoin:", b"otpauth://totp/",
+    b"BCD\n002\n1\nSCT\n", b"\xEF\xBB\xBF", b"\xFF\xFE", b"\xFE\xFF", b"\xEF\xBB", b"]C1", b"]Q3", b"]d2", b"\\000026", b"\x1d", b"[)>\x1e06\x1d", b"%PDF-", b"<?xml ", b"{\"", b"data:image/png;base64,",
+    b"\x00", b"\x00\x00\x00", b"\x7f", b"\x80", b"\xff\xff", b" ", b"\n", b"\r\n", b"\t", b"0", b"00000000", b"A", b"a",
+];
+const BYTE_TOKENS: &[&[u8]] = &[
+    b"example.com", b"EXAMPLE.COM", b"/", b"?q=", b"&id=", b"=", b"#", b"%20", b"@", b".", b":", b";", b";;", b",", b"\n", b"\r\n", b"\t", b" ", b"\x00", b"\x1d", b"\x1e", b"\x04",
+    b";P:", b";H:true", b"END:VCARD", b"FN:", b"TEL;TYPE=CELL:", b"\xE6\x97\xA5\xE6\x9C\xAC", b"\xC3\xA9", b"\xF0\x9F\x98\x80", b"\x93\xFA\x96\x7B", b"\xE4\xAA", b"\x81\x40",
+    b"\xEF\xBB\xBF", b"\xEC\x11", b"\x11\xEC", b"\xEC", b"\x40", b"\x20", b"\x10", b"\x70", b"\x80", b"\xFF", b"0123456789", b"ABCDEFGHIJKLMNOPQRSTUVWXYZ", b"abcdefghijklmnopqrstuvwxyz", b"+33612345678", b"1234",
+];
+const ALNUM_PREFIXES: &[&[u8]] = &[
+    b"HTTPS://", b"HTTP://", b"WWW.", b"FTP://", b"MAILTO:", b"TEL:+", b"TEL:", b"SMSTO:", b"SMS:", b"GEO:", b"WIFI:T:WPA", b"WIFI:S:", b"BEGIN:VCARD", b"MECARD:N:", b"MATMSG:TO:", b"URN:", b"BITCOIN:",
+    b"%", b"$", b" ", b"*", b"+", b"-", b".", b"/", b":", b"0", b"00", b"A", b"Z", b"9:", b"1/2", b"3.14", b"-1", b"$100", b"100%",
+];
+const ALNUM_TOKENS: &[&[u8]] = &[
+    b"EXAMPLE.COM", b"/", b".", b":", b"-", b"+", b"*", b"%", b"$", b" ", b"HELLO WORLD", b"0123456789", b"ABCDEFGHIJKLMNOPQRSTUVWXYZ", b"EC11", b"QR", b"2024-01-01", b"12:30", b"555-1234", b"%20", b"A1", b"Z9",
+];
+
+/// Deterministic sweep over the dictionary: every prefix alone, followed by a short and by a long tail of
+/// its own class, and (byte class) followed by text. Returns (class, payload) with the class pinned.
+pub fn prefix_sweep(seed: u64) -> Vec<(usize, Vec<u8>)> {
+    let mut out: Vec<(usize, Vec<u8>)> = Vec::new();
+    let mut rng = Rng::new(seed ^ 0x9e37_79b9);
+    for (class, pre) in [(1usize, ALNUM_PREFIXES), (2usize, BYTE_PREFIXES)] {
+        for p in pre {
+            for tail_len in [0usize, 3, 14, 90] {
+                let mut v = p.to_vec();
+                let span = if class == 1 { 45 } else { 256 };
+                for _ in 0..tail_len {
+                    v.push(alphabet(class, rng.below(span)));
+                }
+                out.push((tables::classify(&v), v));
+            }
+            if class == 2 {
+                let mut v = p.to_vec();
+                v.extend_from_slice(b"example.com/path?x=1");
+                out.push((tables::classify(&v), v));
+                let mut v = p.to_vec();
+                v.extend_from_slice(b"EXAMPLE.COM/QR");
+                out.push((tables::classify(&v), v));
+            } else {
+                let mut v = p.to_vec();
+                v.extend_from_slice(b"EXAMPLE.COM/QR");
+                out.push((tables::classify(&v), v));
+            }
+        }
+    }
+    out
+}
+
+fn tokens_payload(class: usize, len: usize, rng: &mut Rng) -> Vec<u8> {
+    let mut p: Vec<u8> = Vec::with_capacity(len + 32);
+    if class == 0 {
+        // digits only: phone-number-like groups with runs of one digit
+        while p.len() < len {
+            let d = b'0' + rng.below(10) as u8;
+            let long = rng.chance(1, 4);
+            let run = 1 + rng.below(if long { 12 } else { 3 });
+            p.extend(std::iter::repeat(d).take(run));
+        }
+    } else {
+        let (pre, tok) = if class == 1 { (ALNUM_PREFIXES, ALNUM_TOKENS) } else { (BYTE_PREFIXES, BYTE_TOKENS) };
+        if rng.chance(1, 2) {
+            p.extend_from_slice(pre[rng.below(pre.len())]);
+        }
+        while p.len() < len {
+            match rng.below(4) {
+                0 => p.extend_from_slice(pre[rng.below(pre.len())]),
+                1 | 2 => p.extend_from_slice(tok[rng.below(tok.len())]),
+                _ => {
+                    let span = if class == 1 { 45 } else { 256 };
+                    for _ in 0..1 + rng.below(6) {
+                        p.push(alphabet(class, rng.below(span)));
+                    }
+                }
+            }
+        }
+    }
+    p.truncate(len);
+    p
+}
+
+pub const CRAFT_TARGET: i64 = 1;
+pub const CRAFT_SHAPE: i64 = 2;
 
 #[derive(Clone, Debug, Default)]
 pub struct Job {
@@ -66,11 +161,36 @@ pub fn gen_payload(class: usize, len: usize, gen: usize, seed: u64) -> Vec<u8> {
             .collect(),
         GEN_RAMP => (0..len).map(|i| alphabet(class, (i * 131 + (i / 251) * 17 + 7 + (seed as usize % 97)) % span)).collect(),
         GEN_SPARSE => (0..len).map(|_| if rng.chance(1, 12) { alphabet(class, rng.below(span)) } else { alphabet(class, 0) }).collect(),
+        GEN_TOKENS => tokens_payload(class, len, &mut rng),
+        GEN_ZERORUN => {
+            // random content with two or three long stretches of the zero symbol somewhere inside
+            // (whole interior blocks of zero codewords while the first block is not)
+            let mut p: Vec<u8> = (0..len).map(|_| alphabet(class, rng.below(span))).collect();
+            for _ in 0..2 + rng.below(2) {
+                if len >= 4 {
+                    let a = rng.below(len);
+                    let b = (a + 1 + rng.below(len - a)).min(len);
+                    for x in &mut p[a..b] {
+                        *x = alphabet(class, 0);
+                    }
+                }
+            }
+            p
+        }
+        GEN_PERIODIC => {
+            let period = [2usize, 3, 4, 5, 7, 8, 16, 19, 31][rng.below(9)];
+            let unit: Vec<u8> = (0..period).map(|_| alphabet(class, rng.below(span))).collect();
+            (0..len).map(|i| unit[i % period]).collect()
+        }
+        GEN_ALT => {
+            let ph = (seed % 2) as usize;
+            (0..len).map(|i| if (i + ph) % 2 == 0 { alphabet(class, 0) } else { alphabet(class, span - 1) }).collect()
+        }
         _ => (0..len).map(|_| alphabet(class, rng.below(span))).collect(),
     };
     // pin the class
     if len >= 1 && tables::classify(&p) != class {
-        let pos = if gen == GEN_RANDOM || gen == GEN_SPARSE { rng.below(len) } else { len - 1 };
+        let pos = if gen == GEN_RANDOM || gen == GEN_SPARSE || gen == GEN_ZERORUN { rng.below(len) } else { len - 1 };
         p[pos] = match class {
             1 => *rng.pick(b"ABCXYZ $%*+-./:"),
             2 => *rng.pick(&[0x00u8, 0x0a, b'a', b'z', b',', 0x7f, 0x80, 0xff, b'!', b'_']),
@@ -82,10 +202,17 @@ pub fn gen_payload(class: usize, len: usize, gen: usize, seed: u64) -> Vec<u8> {
 
 impl Job {
     pub fn payload(&self) -> Vec<u8> {
-        match &self.payload {
-            Some(p) => p.clone(),
-            None => gen_payload(self.class, self.len, self.gen, self.seed),
+        match (&self.payload, self.aux[3], self.version, self.level) {
+            (Some(p), _, _, _) => p.clone(),
+            // crafted payloads (see craft.rs): aux[3] = 1 matrix target aux[0]; aux[3] = 2 codeword shape aux[0]
+            (None, CRAFT_TARGET, Some(v), Some(l)) => crate::craft::payload_for_target(v, l, self.aux[0] as usize),
+            (None, CRAFT_SHAPE, Some(v), Some(l)) => crate::craft::payload_for_shape(v, l, self.aux[0] as usize, self.seed),
+            _ => gen_payload(self.class, self.len, self.gen, self.seed),
         }
+    }
+    /// byte-mode job at a forced (version, level) whose payload is crafted (kind = CRAFT_TARGET / CRAFT_SHAPE)
+    pub fn crafted(fam: &'static str, kind: i64, which: usize, v: usize, level: usize, mask: Option<usize>, seed: u64) -> Job {
+        Job { fam, class: 2, mode: Some(2), level: Some(level), version: Some(v), mask, len: oracle::tables::capacity(v, level, 2), gen: 0, seed, aux: [which as i64, 0, 0, kind], payload: None }
     }
     pub fn config(&self) -> Config {
         Config { input: self.payload(), mode: self.mode, level: self.level, version: self.version, mask: self.mask }
